@@ -1349,5 +1349,71 @@ pub fn gen_c15(rng: &mut Rng, sh: &mut Shards, out: &str, thorough: bool) {
         }).collect();
         sh.unit(&slim);
     }
+    cmdline_family(&bin, &dir, sh);
     let _ = std::fs::remove_dir_all(&dir);
+}
+
+/// the command line of the binary (src/bin.rs): every kind of argument list; Driver!CmdLine says what must happen
+fn cmdline_family(bin: &str, dir: &str, sh: &mut Shards) {
+    use std::io::{Read, Write};
+    use std::process::{Command, Stdio};
+    let text = format!("{}/cmd_text.s", dir);
+    let binary = format!("{}/cmd_binary.s", dir);
+    let adir = format!("{}/cmd_dir.s", dir);
+    let missing = format!("{}/cmd_missing.s", dir);
+    let _ = std::fs::create_dir_all(dir);
+    std::fs::write(&text, b"start:\nmov ax, 1\nprint reg\n").unwrap();
+    std::fs::write(&binary, b"start:\nmov ax, 1\n\xff\xfe\nprint reg\n").unwrap();
+    let _ = std::fs::create_dir_all(&adir);
+    let f = |st: &str| format!("file:{}", st);
+    let lists: Vec<Vec<String>> = vec![
+        vec![], vec!["-i".into()], vec!["--interpreted".into()],
+        vec![f("text")], vec!["-i".into(), f("text")], vec![f("text"), "-i".into()], vec!["--interpreted".into(), f("text")], vec![f("text"), "--interpreted".into()],
+        vec![f("missing")], vec!["-i".into(), f("missing")], vec![f("missing"), "-i".into()],
+        vec![f("dir")], vec!["-i".into(), f("dir")], vec![f("binary")], vec![f("binary"), "--interpreted".into()],
+        vec!["-x".into(), f("text")], vec![f("text"), "-x".into()], vec!["--nope".into(), f("text")], vec!["-I".into(), f("text")], vec!["--Interpreted".into(), f("text")],
+        vec![f("text"), f("text")], vec![f("text"), f("missing")], vec![f("missing"), f("text")],
+        vec!["-i".into(), "-i".into(), f("text")], vec!["-i".into(), "--interpreted".into(), f("text")], vec!["-i".into(), f("text"), "-i".into()],
+        vec!["-h".into()], vec!["--help".into()], vec!["-V".into()], vec!["--version".into()], vec!["-h".into(), f("text")], vec![f("text"), "-h".into()],
+        vec!["--version".into(), f("text")], vec![f("missing"), "--help".into()], vec!["-i".into(), "-V".into()],
+    ];
+    for args in lists {
+        let mut argv: Vec<serde_json::Value> = Vec::new();
+        let mut real: Vec<String> = Vec::new();
+        for a in &args {
+            if let Some(st) = a.strip_prefix("file:") {
+                argv.push(serde_json::json!({"k":"file","state":st}));
+                real.push(match st { "text" => text.clone(), "binary" => binary.clone(), "dir" => adir.clone(), _ => missing.clone() });
+            } else {
+                argv.push(serde_json::json!({"k":"flag","name":a}));
+                real.push(a.clone());
+            }
+        }
+        let mut child = Command::new(bin).args(&real).env("RUST_BACKTRACE", "0").stdin(Stdio::piped()).stdout(Stdio::piped()).stderr(Stdio::null()).spawn().expect("spawn emulator binary");
+        {
+            let mut si = child.stdin.take().unwrap();
+            let _ = si.write_all(b"n\nn\nn\nn\nn\nn\n");
+        }
+        let mut so = child.stdout.take().unwrap();
+        let reader = std::thread::spawn(move || { let mut b = Vec::new(); let _ = so.read_to_end(&mut b); b });
+        let t0 = std::time::Instant::now();
+        let mut timeout = false;
+        let status: i64 = loop {
+            match child.try_wait() {
+                Ok(Some(st)) => break st.code().map(|c| c as i64).unwrap_or(-1),
+                Ok(None) => {
+                    if t0.elapsed() > std::time::Duration::from_secs(20) { timeout = true; let _ = child.kill(); let _ = child.wait(); break -2; }
+                    std::thread::sleep(std::time::Duration::from_millis(5));
+                }
+                Err(_) => break -3,
+            }
+        };
+        let out = reader.join().unwrap_or_default();
+        let txt = String::from_utf8_lossy(&out).to_string();
+        let ran = txt.contains("Output of line 3");
+        let prompts = txt.matches(">>> ").count();
+        let bytes: Vec<u8> = out.iter().take(600).cloned().collect();
+        sh.count("cli:command-line", 1);
+        sh.unit(&[serde_json::json!({"ev":"cmdline","argv":argv,"args":args.join(" "),"status":status,"timeout":timeout,"bytes":bytes,"ran":ran,"prompts":prompts})]);
+    }
 }
